@@ -149,6 +149,7 @@ func checkC06(c *Ctx) {
 		ruleFieldCorrespondenceFor(c, pf, tomlLeaves(c), "R6.6", func(dest string) bool { return dest == "Analog.Bidirectional" })
 	}
 	c.MinCount("R6.6", 3)
+	ruleDispatch(c, dv, "R6.8", false, true) // every axis position reaches the transfer function
 	ruleFlipAfterDeadzone(c, dv, "R6.7")
 	c.MinCount("R6.1", 2)
 	c.MinCount("R6.2", 2)
